@@ -158,6 +158,7 @@ func C18(c *core.Ctx) {
 			nops := 1 + r.Intn(12)
 			var ops []c18op
 			var hist []string
+			compoundEver := false // once a compound-key list was held in a Go map the known defect may have struck: later steps of the history inherit it
 			cur := gen.Clone(loc.body) // harness-side view, refreshed from the store after each op
 			for k := 0; k < nops; k++ {
 				// choose an op that makes sense for the current content
@@ -292,7 +293,8 @@ func C18(c *core.Ctx) {
 				} else {
 					after = gen.FromMap(dc.kids, tgtMap, &unord)
 				}
-				compoundMap := gen.CompoundInMap > 0
+				compoundEver = compoundEver || gen.CompoundInMap > 0
+				compoundMap := compoundEver
 				locAfter := locateBody(dc.kids, after, loc)
 				status := errClass(opErr)
 				canon := "<entry point vanished>"
